@@ -402,6 +402,11 @@ impl RuntimeData {
         crate::verif::emit(|| crate::verif::Event::GcEnd {
             objects: self.object_list.len(),
             allocated: self.memory.allocated.load(std::sync::atomic::Ordering::Relaxed),
+            live_bytes: if crate::verif::wants_live_bytes() {
+                Some(self.verif_live_bytes())
+            } else {
+                None
+            },
         });
         debug!("✓ GC");
     }
